@@ -113,56 +113,25 @@ Theorem C08_complete_frames_total L st st' :
 Proof. exact (complete_frames_total L st st'). Qed.
 Print Assumptions C08_complete_frames_total.
 
-(* (4) classical family: `classical_finish` is REFUTED for cpl.Model.finish as coded *)
-Theorem C08_classical_finish_refuted :
+(* (4) classical family.  `classical_finish` is REFUTED for cpl.Model.finish as it was coded
+   before fix 08fe120 (run_old; kept as documentation of the old behaviour) *)
+Theorem C08_classical_finish_old_refuted :
   exists os, forall cord, In cord [[0; 1]; [1; 0]] ->
-    exists st, run ML_cfol cord all_pord os = Some st /\
+    exists st, run_old ML_cfol cord all_pord os = Some st /\
                classical_okb st = false /\
                value_of ML_cfol st (SPred PIdentity [PC 0; PC 1]) 0 = Val VT /\
                value_of ML_cfol st (SPred PIdentity [PC 1; PC 0]) 0 = Val VF.
 Proof. exact classical_finish_refuted. Qed.
-Print Assumptions C08_classical_finish_refuted.
+Print Assumptions C08_classical_finish_old_refuted.
 
-(* ... and holds for the repaired completion (fixes/c08-identity.diff), for every order of
-   the constants and of the predicates: identity becomes an equivalence, every
-   predicate's extension respects it, existence is universal *)
+(* the completion loop of the current code, for every order of the constants and of the
+   predicates: identity becomes an equivalence, every extension respects it, existence is universal *)
 From PT Require Import Sem.ClassicalFixProofs.
-Theorem C08_classical_finish_repaired cord pord st st' :
+Theorem C08_classical_completion cord pord st st' :
   tuples_ok st -> id_binary st ->
   (forall c, In c cord <-> In c (s_consts st)) -> pord_covers pord st ->
   cl_complete_fixed cord pord st = Some st' ->
   (forall w, In w (s_fkeys st) -> frame_classical st' w) /\
   s_fkeys st' = s_fkeys st /\ s_consts st' = s_consts st /\ tuples_ok st' /\ id_binary st'.
 Proof. exact (classical_finish_repaired cord pord st st'). Qed.
-Print Assumptions C08_classical_finish_repaired.
-
-Theorem C08_finish_fixed_classical L cord pord st st1 st' :
-  ml_classical L = true -> complete_frames L st = Some st1 ->
-  tuples_ok st1 -> id_binary st1 ->
-  (forall c, In c cord <-> In c (s_consts st1)) -> pord_covers pord st1 ->
-  finish_fixed L cord pord st = Some st' ->
-  (forall w, In w (s_fkeys st') -> frame_classical st' w) /\
-  s_finished st' = true /\ s_fkeys st' = s_fkeys st1 /\ s_consts st' = s_consts st1.
-Proof. exact (finish_fixed_classical L cord pord st st1 st'). Qed.
-Print Assumptions C08_finish_fixed_classical.
-
-(* the well-formedness hypotheses are invariants of the API: every state reachable by a
-   history of set/add calls satisfies them (op_ok: set_opaque_value only on sentences the
-   logic treats as opaque; Identity predications are binary) *)
-From PT Require Import Sem.ExportProofs Sem.ReachProofs.
-Theorem C08_reachable_wf L os st :
-  forallb (op_ok L) os = true -> apply_ops L init_state os = Some st -> inv L st.
-Proof. exact (reachable_inv L os st). Qed.
-Print Assumptions C08_reachable_wf.
-
-(* for EVERY history and EVERY iteration order, the repaired finish makes identity an
-   equivalence that every extension respects and existence universal *)
-Theorem C08_classical_finish_repaired_history L cord pord os st st1 st' :
-  ml_classical L = true -> val_ok L VT = true -> forallb (op_ok L) os = true ->
-  apply_ops L init_state os = Some st -> complete_frames L st = Some st1 ->
-  (forall c, In c cord <-> In c (s_consts st)) -> pord_covers pord st1 ->
-  run_fixed L cord pord os = Some st' ->
-  (forall w, In w (s_fkeys st') -> frame_classical st' w) /\ classical_okb st' = true /\
-  state_wfb L st' = true /\ acc_wf (s_R st') /\ s_finished st' = true.
-Proof. exact (run_fixed_classical_wf L cord pord os st st1 st'). Qed.
-Print Assumptions C08_classical_finish_repaired_history.
+Print Assumptions C08_classical_completion.
